@@ -83,6 +83,11 @@ func (e *Exec) call(fr *Frame, st *State, cc *ssa.CallCommon, instr ssa.Instruct
 		key := strings.TrimPrefix(fnv.T, "gfn:")
 		return e.callKey(fr, st, key, nil, nil, args, cc.Signature(), cc, pos)
 	}
+	// a func() time.Time value (WorldState.Now): reading a clock has no effect on the verified state
+	if sig := cc.Signature(); sig.Params().Len() == 0 && sig.Results().Len() == 1 && isTimeTime(sig.Results().At(0).Type()) {
+		e.sc.used["func() time.Time values (WorldState.Now) are reads of a monotone clock without other side effects"] = true
+		return Val{T: e.readClock(st), Typ: sig.Results().At(0).Type()}
+	}
 	// unknown dynamic call
 	e.sc.uncontracted[fmt.Sprintf("dynamic call through a function value at %s (everything havocked)", e.pos(pos))] = true
 	e.havocAll(st)
@@ -654,7 +659,7 @@ func (e *Exec) applyModifies(env *SpecEnv, fc *FuncContract, st *State) {
 		// element sort of the map
 		inner := strings.TrimSuffix(strings.TrimPrefix(srt, "(Array Int "), ")")
 		n := e.sc.freshConst("mod."+t.heap, inner)
-		if et, ok := e.heapElemType[t.heap]; ok {
+		if et, ok := e.heapElemType[t.heap]; ok && !strings.HasPrefix(t.heap, "E_") {
 			e.sc.assume(st.reach, e.sc.rangeFact(n, et))
 			e.sc.assume(st.reach, e.allocFact(st, n, et))
 		}
@@ -722,6 +727,9 @@ func (e *Exec) callEffects(fr *Frame, cc *ssa.CallCommon, depth int) (maps []str
 				}
 			}
 			if key == "" {
+				if sig := cc.Signature(); sig.Params().Len() == 0 && sig.Results().Len() == 1 && isTimeTime(sig.Results().At(0).Type()) {
+					return []string{e.heapMap("G_clock", "Int"), "G_alloc"}, false
+				}
 				return nil, true
 			}
 		} else {
